@@ -170,12 +170,15 @@ def pow_safe(form) -> bool:
 
 
 def f32_safe(form) -> bool:
-    """binary32 operands only where every intermediate result is exact (flat cells, or no / and ** above them)"""
+    """Random trees use binary32 operands only where every intermediate result is exact in binary32 (no / and no **
+    anywhere, at most four leaves): C++ computes float op float in binary32, Python in binary64 - `j.f()/7` differs in
+    the low bits, which the abstract reals of the model deliberately do not distinguish (see ASSUMPTIONS).  The table
+    cells exercise / and ** on binary32 operands with divisors that are powers of two and small integer exponents."""
     if not X.has_float32(form):
         return True
     ops = set(X.ops_of(form))
     d = max(X.depth(form.get(k)) for k in ("e", "t", "a", "b", "seed") if k in form) if form["form"] != "agg" else 2
-    return d <= 1 or (d <= 2 and not (ops & {"Div", "Pow"}))
+    return d <= 2 and not (ops & {"Div", "Pow"})
 
 
 # ------------------------------------------------------------------------------------------------------------ samples
